@@ -467,6 +467,11 @@ pub fn replay(path: &str, out: &str, no_impl: bool) -> anyhow::Result<()> {
                 rows.push((j.clone(), ij));
                 continue;
             }
+            Some("flags") => {
+                let ij = if no_impl { json!({"skipped": true}) } else { crate::gen_flags::real(&strs("E"), &strs("e"), &strs("d")) };
+                rows.push((j.clone(), ij));
+                continue;
+            }
             Some("lookup") => {
                 let extra: BTreeMap<String, String> = j.get("extra").and_then(|v| v.as_object()).map(|m| {
                     m.iter().filter_map(|(k, v)| v.as_str().map(|s| (k.clone(), s.to_string()))).collect()
